@@ -277,11 +277,18 @@ def _settable(f, rep):
         good_mm = len(mm) == 1 and mm[0][0] == "unop" and \
             mm[0][1] == "Invert" and mm[0][2][0] == "attr" and \
             mm[0][2][2] == "mask"
-        good_m = len(rest) == 1 and rest[0][0] == "comp" and \
-            rest[0][2] == 1 and rest[0][1][0] == "elem" and any(
+        from_scan = len(rest) == 1 and rest[0][0] == "comp" and \
+            rest[0][1][0] == "elem" and any(
                 st[0] == "call" and st[1] == (
                     "global", "_get_covered_keys_and_masks")
                 for st in subterms(rest[0][1]))
+        if not from_scan:
+            # the other operand is not a component of what the scan of the
+            # covered entries yields: another form, not analysed
+            raise AnalysisError("_refine_downcheck: the bits that can be "
+                                "set are computed from values these rules "
+                                "do not recognise")
+        good_m = rest[0][2] == 1
         if not (good_mm and good_m):
             ok = False
     rep.check(ok, "C04-R1", qual(f), "settable bits = masked in the covered "
@@ -417,9 +424,8 @@ def r2_default(program, rep):
     ln = lambda X: ("call", ("global", "len"), (X,), ())   # noqa: E731
 
     def setof(attr):
-        return ("call", ("global", "set"),
-                (("genexp", ("attr", ("elem", TBL), attr), ((TBL, ()),)),),
-                ())
+        # (set(<generator>) and the set comprehension are one term)
+        return ("setcomp", ("attr", ("elem", TBL), attr), ((TBL, ()),))
     need = [(mk_cmp("Eq", ln(setof("mask")), ("const", 1)), True),
             (mk_cmp("Eq", ln(TBL), ln(setof("key"))), True)]
     ok = True
@@ -711,6 +717,10 @@ def r3_ranges(program, rep):
     mg, al = formals(cv)[:2]
     MG = ("param", mg)
     ys = [n for n in ast.walk(cv) if isinstance(n, ast.Yield)]
+    if len(ys) != 1:
+        raise AnalysisError("_get_covered_keys_and_masks: not a generator "
+                            "with one yield; that form of the scan is not "
+                            "analysed")
     ok = len(ys) == 1
     if ok:
         yn = C.cfg.node_containing(ys[0])
